@@ -413,7 +413,8 @@ def run(chk):
     chk.assume('delta_power_range step is 0 (0.01 dB resolution) or a multiple of 0.1 dB; range lower bound <= upper bound')
     chk.assume('the rule is judged where the amplifier is followed by a span or by the egress ROADM (amplifier directly '
                'followed by an amplifier / transceiver: Closure and limits only); spans holding a RamanFiber: rule and '
-               'Closure unjudged (the compensated loss is the design\'s own Raman estimate); multiband tilt deviation '
+               'Closure unjudged (the compensated loss is the design\'s own Raman estimate) and reproduction unjudged from there '
+               'on (propagated Raman gain depends on SimParams); multiband tilt deviation '
                'is taken from the design call as an input')
     chk.assume('for an auto-selected model a reduction down to the model\'s extended maximum gain is admitted as well as '
                'the reduction to p_max (the property text does not mention the former)')
